@@ -398,9 +398,11 @@ set_option linter.unusedSimpArgs false in
     (so its file holds the concatenation of exactly that prefix); either the threshold is never reached
     (`k = |rs|`, total `< N`, Deferred still pending) or the Deferred fires exactly once, with the byte count
     written, at the first record that brings the total to `≥ N`; the records after it are not lost:
-    `rs.drop k` is queued, in order, for `receive_record`.  (For consumers attached mid-stream, detached,
-    re-attached from callbacks, order and completeness are `delivery_exact`; the threshold arithmetic for
-    those is covered by the correspondence runs and the oracle only.) -/
+    `rs.drop k` is queued, in order, for `receive_record`.  (This is the fresh-connection instance.  Consumers
+    attached in any reachable state — over a backlog of queued records, with reads served or outstanding, after
+    earlier consumers that finished or were disconnected by the application, from inside callbacks — with any
+    callback script on the Deferred: `consumer_threshold_exact`, `consumer_mode_same_bytes_anywhere`,
+    `connectConsumer_over_backlog_reached`, … in `WV.Props.C06_Thresh`.) -/
 theorem consumer_mode_same_bytes (E : Env) (b : Bool) (rs : List Bytes) (hcount : rs.length ≤ 256 ^ 24)
     (hsz : SizesOK rs) (hid : IdealFor E.box (senderRecordKey E b) rs) (N : Nat) (hN : 0 < N)
     (cs : List Bytes) (hcs : cs.flatten = (sendMany E (Conn.init b) rs).1.app.wire) :
